@@ -128,8 +128,9 @@ def gen_scenarios(spec, rng, n):
         if "rest" in transports:
             kinds += ["rest"]
         client = rng.choice(kinds)
-        nops = rng.randint(1, 4)
-        nact = 1 if client != "async" else rng.randint(1, 3)
+        from ..rng import deep
+        nops = rng.randint(1, 8 if deep() else 4)
+        nact = 1 if client != "async" else rng.randint(1, 5 if deep() else 3)
         actors = [{"start": round(rng.choice([0, 0, 0.01, 0.3]) * (a > 0), 3), "ops": []} for a in range(nact)]
         for j in range(nops):
             if paged and client != "rest" and rng.random() < 0.2:
@@ -210,7 +211,8 @@ def gen_op(spec, rng, fs, s, m, oid, client):
     elif shape < 0.7:
         k = rng.randint(1, 4)
     elif shape < 0.85:
-        k = rng.randint(5, 9)
+        from ..rng import deep
+        k = rng.randint(5, 16 if deep() else 9)
     else:
         k = 60   # outage longer than any deadline: latency guarantees exhaustion when a deadline exists
     if k == 60 and (retry_T is None or not codes):
